@@ -162,6 +162,9 @@ var cardPool = []uint32{0, 1, 0xffffffff, 0x00ffffff, 0x00fffffe, 0x01000000, 81
 // set by the card-number sweep: PutCard is generated with this card number
 var forceCardNo *uint32
 
+// set by the long-list cases: SetDoorPasscodes is generated with this many passcodes
+var forcePasscodes int
+
 // set by the format-list sweep: PutCard is generated with exactly this list of card formats
 var forceFormats []types.CardFormat
 
@@ -372,6 +375,9 @@ func genOp(r *Rand, which int, id uint32, edge bool) OpCase {
 			for _, k := range []uint8{1, 2, 3, 4, 5, 0} {
 				if r.Intn(4) != 0 || k <= 2 {
 					v := uint8(10*int(k) + r.Intn(3) + (r.Intn(2) * 100))
+					if r.Intn(4) == 0 { // the permission values code tends to single out
+						v = []uint8{0, 1, 2, 254, 255, 29}[r.Intn(6)]
+					}
 					doors[k] = v
 					doorsCoq = append(doorsCoq, fmt.Sprintf("(%d, %d)", k, v))
 				}
@@ -539,6 +545,11 @@ func genOp(r *Rand, which int, id uint32, edge bool) OpCase {
 			door = []uint8{0, 5, 255, 4, 1}[r.Intn(5)]
 		}
 		n := r.Intn(6)
+		if forcePasscodes > 0 {
+			n = forcePasscodes
+		} else if r.Intn(12) == 0 { // very long lists: everything beyond the fourth passcode is ignored, however far beyond
+			n = []int{255, 256, 257, 260, 300, 515}[r.Intn(6)]
+		}
 		codes := []uint32{}
 		cc := []string{}
 		for i := 0; i < n; i++ {
